@@ -2,6 +2,7 @@
 //! Engine E2, exhaustive: all 6 localizers × 8 languages × all relative paths of depth
 //! 1..=D over the component alphabet, with/without trailing slash, + degenerate paths.
 
+use props::fsx::{self, Which};
 use props::glue;
 use rayon::prelude::*;
 use serde_json::{json, Value};
@@ -118,12 +119,26 @@ fn explore(ctx: &Ctx) -> Outcome {
     );
     o.assumptions = vec![
         "paths are relative with plain components separated by '/' (no '.', '..' or empty inner components except in the degenerate list)".into(),
-        "the filesystem half of C14 (localized write/read/list address root/localize(p)) is decided by the C12/C13 exploration".into(),
+        "the filesystem half ('all filesystem operations apply the same mapping') is explored on real directories for all 5 supported games × 8 languages at depth 1 (2 thorough) here, and at full depth for two game/language pairs under C12/C13".into(),
     ];
+    // filesystem half: localized writes / reads / existence checks / listings address root/localize(p)
+    let fs_part = fsx::explore(ctx, Which::C14);
+    o.coverage.states += fs_part.coverage.states;
+    o.coverage.transitions += fs_part.coverage.transitions;
+    o.coverage.evaluations += fs_part.coverage.evaluations;
+    o.coverage.traces_validated_against_impl += fs_part.coverage.transitions;
+    o.coverage.extra.insert("filesystem_half".into(), json!({"rule": fs_part.coverage.rule, "states": fs_part.coverage.states, "transitions": fs_part.coverage.transitions, "configurations": fs_part.coverage.extra.get("configurations")}));
+    for v in fs_part.violations {
+        o.violations.push(Violation { sig: format!("fs:{}", v.sig), summary: v.summary, case: json!({"fs": v.case}) });
+    }
+    o.machinery_errors.extend(fs_part.machinery_errors);
     o
 }
 
-fn replay(_ctx: &Ctx, case: &Value) -> Vec<Violation> {
+fn replay(ctx: &Ctx, case: &Value) -> Vec<Violation> {
+    if let Some(fs_case) = case.get("fs") {
+        return fsx::replay(ctx, Which::C14, fs_case).into_iter().map(|v| Violation { sig: format!("fs:{}", v.sig), summary: v.summary, case: case.clone() }).collect();
+    }
     let loc = parse_loc(case["loc"].as_str().unwrap_or(""));
     let lang = parse_lang(case["lang"].as_str().unwrap_or(""));
     let path = case["path"].as_str().unwrap_or("");
